@@ -91,7 +91,7 @@ def add_iteration_vcs() -> List[core.VC]:
     f = extract.get_function(TR, "add_iteration")
     node = extract.stripped(f)
     fq = [f.fq]
-    ex = pyvc.Exec(consts=extract.module_constants(TR), name=name)
+    ex = pyvc.Exec(consts={**extract.module_constants("hta.common.trace_filter"), **extract.module_constants(TR)}, name=name)
     fv.install(ex)
     fv.install_symtab(ex)
     cols = {"index": (z3.IntSort(), False, "int"), "ts": (z3.IntSort(), False, "int"), "dur": (z3.IntSort(), False, "int"), "stream": (z3.IntSort(), False, "int"),
@@ -158,7 +158,7 @@ def filter_vcs() -> List[core.VC]:
     fq = [f.fq + ".filter_gpu_kernels_for_one_rank"]
     vcs: List[core.VC] = []
     for include in (False, True):
-        ex = pyvc.Exec(consts=extract.module_constants(TR), name=f"{name}.include_{include}")
+        ex = pyvc.Exec(consts={**extract.module_constants("hta.common.trace_filter"), **extract.module_constants(TR)}, name=f"{name}.include_{include}")
         fv.install(ex)
         fv.install_symtab(ex)
         _, tree = extract.load_module(TF)
